@@ -1,6 +1,26 @@
 """C05  Text assertions and text transformers mean what the reference manual says.
 
-DRAFT (being developed)
+All texts are in-memory texts (the `ContentsOfStr`-backed StringSource exactly_lib makes for a
+string literal) holding a SYMBOLIC str.  Matchers and transformers are obtained from the REAL
+parsers on concrete syntax; operands are symbol references / integer placeholders bound to
+symbolic values, so the production object graph sdv -> ddv -> adv -> primitive is what runs.
+
+Kernels
+  K1  primitive matchers and the logical operators: is-empty, equals, matches [-full] (regex
+      family), num-lines OP K0, !, &&, ||                     real verdict == documented predicate
+  K2  every / any line : LINE-MATCHER (line matcher of unknown class with a symbolic verdict per
+      line, line-num OP K1, contents STRING-MATCHER, combinations)
+  K3  `equals`: the three comparison strategies of _ApplierWExtDepsCases that do not need a file
+      system (no / only-actual / only-expected external dependencies, symbolic flags), incl. the
+      read-ahead short cut of read_lines_as_str__w_minimum_num_chars
+  K4  `replace` with an UNINTERPRETED regex substitution: (a) _lines_iterator_from_replacements
+      re-divides arbitrary per-line results exactly at new-line, (b) through the real parser with a
+      stub compiled pattern: which lines are substituted (-at), with which arguments
+      (-preserve-new-lines), and how the output is assembled
+  K5  transformers through the real parser, output text and its division into lines:
+      identity, strip (3 variants), char-case, replace (real `re`, literal replacement),
+      filter, grep
+  K6  composition: T | T (= left to right), -transformed-by T M, nested
 """
 from typing import List
 
@@ -10,6 +30,115 @@ from harness import _C05_lib as L
 
 PROPERTY = 'C05'
 
+_P = 'exactly_lib.impls.types.'
+REAL_PARSE_M = (
+    _P + 'string_matcher.parse_string_matcher.parsers',
+    _P + 'expression.parser._Parser',
+    _P + 'string_source.constant_str.string_source',
+    _P + 'string_source.contents.contents_of_str.ContentsOfStr',
+)
+REAL_PARSE_T = (
+    _P + 'string_transformer.parse_string_transformer.parsers',
+    _P + 'expression.parser._Parser',
+    _P + 'string_source.constant_str.string_source',
+    _P + 'string_source.contents.contents_of_str.ContentsOfStr',
+    'exactly_lib.type_val_prims.string_source.impls.transformed_string_sources.TransformedStringSourceFromLines',
+    'exactly_lib.type_val_prims.string_source.impls.transformed_string_sources._TransformedStringSourceContentsFromLines',
+)
+REAL_OF = {
+    'empty': (_P + 'string_matcher.impl.emptiness.EmptinessStringMatcher',),
+    'equals': (_P + 'string_matcher.impl.equality._EqualityStringMatcher',
+               _P + 'string_matcher.impl.equality._ApplierWExtDepsCases',
+               _P + 'string_matcher.parse.equality.EqualsParser',
+               _P + 'string_source.parse._ReferenceOrStringParser'),
+    'matches': (_P + 'string_matcher.impl.matches.sdv',
+                _P + 'string_matcher.impl.matches._PropertyGetter',
+                _P + 'string_matcher.parse.matches.parse',
+                _P + 'matcher.impls.matches_regex.MatchesRegex',
+                _P + 'regex.parse_regex.ParserOfRegex',
+                _P + 'regex.parse_regex._ValidatorWhichCreatesRegex'),
+    'numlines': (_P + 'string_matcher.impl.num_lines._PropertyGetter',
+                 _P + 'string_matcher.impl.num_lines.sdv',
+                 _P + 'matcher.property_matcher.PropertyMatcher',
+                 _P + 'matcher.impls.comparison_matcher.ComparisonMatcher.matches_w_trace'),
+    'every': (_P + 'string_matcher.impl.line_matchers._get_line_elements',
+              _P + 'matcher.impls.quantifier_matchers.ForAll',
+              _P + 'matcher.impls.quantifier_matchers._QuantifierBase.matches_w_trace',
+              _P + 'line_matcher.model_construction.model_iter_from_file_line_iter'),
+    'any': (_P + 'string_matcher.impl.line_matchers._get_line_elements',
+            _P + 'matcher.impls.quantifier_matchers.Exists',
+            _P + 'matcher.impls.quantifier_matchers._QuantifierBase.matches_w_trace',
+            _P + 'line_matcher.model_construction.model_iter_from_file_line_iter'),
+    'contents': (_P + 'line_matcher.impl.contents.parse._LineContentsMatcher',
+                 _P + 'line_matcher.impl.contents.parse._Parser'),
+    'linenum': (_P + 'line_matcher.impl.line_number.parse_line_number',),
+    'not': (_P + 'matcher.impls.combinator_matchers.Negation',),
+    'and': (_P + 'matcher.impls.combinator_matchers.Conjunction',),
+    'or': (_P + 'matcher.impls.combinator_matchers.Disjunction',),
+    'on': (_P + 'string_matcher.impl.on_transformed.StringMatcherWithTransformation',
+           _P + 'string_matcher.parse_string_matcher._parse_on_transformed'),
+    'identity': (_P + 'string_transformer.impl.identity.IdentityStringTransformer',),
+    'strip': (_P + 'string_transformer.impl.strip_space._strip_space',
+              _P + 'string_transformer.impl.strip_space.Parser'),
+    'strip-ts': (_P + 'string_transformer.impl.strip_space._strip_trailing_space',
+                 _P + 'string_transformer.impl.strip_space.Parser'),
+    'strip-tnl': (_P + 'string_transformer.impl.strip_space._strip_trailing_new_lines',
+                  _P + 'string_transformer.impl.strip_space.Parser'),
+    'upper': (_P + 'string_transformer.impl.case_converters._CaseConverter',
+              _P + 'string_transformer.impl.case_converters.Parser'),
+    'lower': (_P + 'string_transformer.impl.case_converters._CaseConverter',
+              _P + 'string_transformer.impl.case_converters.Parser'),
+    'replace': (_P + 'string_transformer.impl.replace.impl._ReplaceStringTransformer',
+                _P + 'string_transformer.impl.replace.impl._lines_iterator_from_replacements',
+                _P + 'string_transformer.impl.replace.impl._StrReplacerIncludingNewLines',
+                _P + 'string_transformer.impl.replace.impl._StrReplacerExcludingNewLines',
+                _P + 'string_transformer.impl.replace.impl._ReplacerWLineMatcherSelector',
+                _P + 'string_transformer.impl.replace.impl._ReplacerApplierWLineMatcherSelector',
+                _P + 'string_transformer.impl.replace.impl._ReplacerApplierWoLineMatcherSelector',
+                _P + 'string_transformer.impl.replace.setup.ParserOfReplace',
+                _P + 'line_matcher.model_construction.original_and_model_iter_from_file_line_iter',
+                _P + 'regex.parse_regex._ValidatorWhichCreatesRegex'),
+    'filter': (_P + 'string_transformer.impl.filter.line_matcher._FilterByLineMatcher',
+               _P + 'string_transformer.impl.filter.line_matcher._ContentsViaAsLines',
+               _P + 'string_transformer.impl.filter.parse.Parser',
+               _P + 'line_matcher.line_nums_interval.interval_of_matcher',
+               _P + 'line_matcher.model_construction.original_and_model_iter_from_file_line_iter__interval',
+               _P + 'line_matcher.model_construction._lines_interval'),
+    'grep': (_P + 'string_transformer.impl.filter.line_matcher._FilterByLineMatcher',
+             _P + 'string_transformer.impl.filter.parse.GrepShortcutParser',
+             _P + 'line_matcher.impl.contents.parse._LineContentsMatcher',
+             _P + 'matcher.impls.matches_regex.MatchesRegex'),
+    'seq': (_P + 'string_transformer.impl.sequence.SequenceStringTransformer',
+            _P + 'string_transformer.impl.sequence_sdv.StringTransformerSequenceSdv'),
+}
+
+STUB_INT = 'python_evaluate -> placeholder table (integer literal K_i denotes the symbolic integer k_i)'
+STUB_U = 'line matcher of a class unknown to exactly_lib, bound to the symbol U; its verdict on line n is the symbolic bool u[n-1]'
+STUB_TMP = 'tmp-file space that refuses to be used (in-memory texts must not touch the file system)'
+STUB_SRC = ('texts of a StringSource class unknown to exactly_lib (public base classes only) with a symbolic '
+            'may_depend_on_external_resources flag; as_file is an object whose open() iterates the lines')
+STUB_RE = ('parse_regex.re.compile -> stub compiled pattern whose sub(repl, string) is uninterpreted: the i:th call '
+           'returns the symbolic string r_i and records its arguments')
+
+OUT_SRC = 'texts that are files or program output (C boundary; their division into lines is the subject of C14)'
+OUT_RE = ('the semantics of `re` itself: the regex family has a hand-written meaning that is compared with `re` '
+          'concretely by the self-test; under analysis CrossHair\'s model of `re` is trusted')
+OUT_UNI = ('characters outside the stated alphabet, in particular the line separators other than new-line that '
+           'str.splitlines honours (C14) and non-ASCII case mappings')
+
+
+def _reals(tree, acc=None):
+    acc = acc if acc is not None else []
+    if isinstance(tree, tuple):
+        for q in REAL_OF.get(tree[0], ()):
+            if q not in acc:
+                acc.append(q)
+        for x in tree[1:]:
+            _reals(x, acc)
+    return acc
+
+
+# --------------------------------------------------------------------------- K1 K2 K5 K6
 
 def _us(u0, u1, u2, u3, u4):
     return (u0, u1, u2, u3, u4)
@@ -20,12 +149,12 @@ def _pre_common(s, e, k0, k1, u0, u1, u2, u3, u4) -> bool:
     tree = c['tree']
     if len(s) > c['maxlen']:
         return False
-    if not L.in_alphabet(s, c.get('alphabet', L.ALPHABET)):
+    if not L.in_alphabet(s, c['alphabet']):
         return False
     if L.uses(tree, 'E'):
-        if len(e) > c.get('maxlen_e', c['maxlen']):
+        if len(e) > c['maxlen_e']:
             return False
-        if not L.in_alphabet(e, c.get('alphabet_e', c.get('alphabet', L.ALPHABET))):
+        if not L.in_alphabet(e, c['alphabet_e']):
             return False
     elif e != '':
         return False
@@ -72,33 +201,405 @@ def kt_transformer(s: str, e: str, k0: int, k1: int, u0: bool, u1: bool, u2: boo
     return ob.post(real_str == expected and real_lines == L.ref_lines(expected))
 
 
+# --------------------------------------------------------------------------- K3
+
+def _pre_k3(e, s, dep_e, dep_a) -> bool:
+    c = ob.case()
+    if len(e) > c['maxlen_e'] or len(s) > c['maxlen']:
+        return False
+    if not (L.in_alphabet(e, c['alphabet']) and L.in_alphabet(s, c['alphabet'])):
+        return False
+    if dep_e and dep_a:
+        # file-file comparison (filecmp on two real files): C14-K3
+        return False
+    return True
+
+
+def k3_equality(e: str, s: str, dep_e: bool, dep_a: bool) -> bool:
+    """
+    pre: _pre_k3(e, s, dep_e, dep_a)
+    post: _
+    """
+    from exactly_lib.impls.types.string_matcher.impl import equality
+    from exactly_lib.type_val_deps.dep_variants.ddv import ddv_validators, ddv_validation
+    c = ob.case()
+    pad = c.get('pad', '')
+    expected_text = e
+    actual_text = s[:1] + pad + s[1:] if pad else s
+    log_e, log_a = [], []
+    expected = L.stub_string_source(expected_text, dep_e, log_e)
+    actual = L.stub_string_source(actual_text, dep_a, log_a)
+    validator = ddv_validators.FixedPreOrPostSdsValidator(None, ddv_validation.ConstantDdvValidator.new_success())
+    matcher = equality._EqualityStringMatcher(expected, validator)
+    real = matcher.matches_w_trace(actual).value
+    if c.get('oracle_bug'):
+        # seeded oracle error: a text that merely starts with the expected text is accepted
+        return ob.post(real == actual_text.startswith(expected_text))
+    return ob.post(real == (expected_text == actual_text))
+
+
+# --------------------------------------------------------------------------- K4
+
+def _pre_k4a(r0, r1, r2) -> bool:
+    c = ob.case()
+    rs = (r0, r1, r2)
+    for i in range(3):
+        if i < c['n']:
+            if len(rs[i]) > c['maxlen_r'] or not L.in_alphabet(rs[i], 'a\n'):
+                return False
+        elif rs[i] != '':
+            return False
+    return True
+
+
+def k4a_redivide(r0: str, r1: str, r2: str) -> bool:
+    """
+    pre: _pre_k4a(r0, r1, r2)
+    post: _
+    """
+    from exactly_lib.impls.types.string_transformer.impl.replace import impl
+    c = ob.case()
+    n = c['n']
+    rs = [r0, r1, r2][:n]
+    out = list(impl._lines_iterator_from_replacements(lambda i: rs[i], iter(range(n))))
+    whole = ''.join(rs)
+    if c.get('oracle_bug'):
+        # seeded oracle error: a final line without new-line is dropped
+        return ob.post(out == [x for x in L.ref_lines(whole) if x.endswith('\n')])
+    return ob.post(out == L.ref_lines(whole))
+
+
+def _pre_k4b(s, e, r0, r1, r2, u0, u1, u2) -> bool:
+    c = ob.case()
+    if len(s) > c['maxlen'] or not L.in_alphabet(s, c['alphabet']):
+        return False
+    if len(e) > 1 or not L.in_alphabet(e, 'a\n'):
+        return False
+    for r in (r0, r1, r2):
+        if len(r) > c['maxlen_r'] or not L.in_alphabet(r, 'a\n'):
+            return False
+    if c['at'] is None and (u0 or u1 or u2):
+        return False
+    return True
+
+
+def k4b_replace_uninterpreted(s: str, e: str, r0: str, r1: str, r2: str, u0: bool, u1: bool, u2: bool) -> bool:
+    """
+    pre: _pre_k4b(s, e, r0, r1, r2, u0, u1, u2)
+    post: _
+    """
+    c = ob.case()
+    preserve = c['preserve']
+    at = c['at']
+    env = L.Env(e, 0, 0, (u0, u1, u2, False, False))
+    rs = [r0, r1, r2, '', '']
+    calls = []
+    L.install_stub_regex(rs, calls)
+    try:
+        tree = ('replace', preserve, at, 'RX', 'E')
+        transformer = L.real_transformer(tree, env)
+        out = transformer.transform(L.text_model(s))
+        with out.contents().as_lines as lines:
+            real_lines = list(lines)
+    finally:
+        L.uninstall_stub_regex()
+    # reference: the documented behaviour, with the same uninterpreted substitution
+    exp_calls = []
+    exp_out = []
+    n = 0
+    for line in L.ref_lines(s):
+        n += 1
+        if at is not None and not L.ref_line_matcher(at, n, L.ref_line_contents(line), env):
+            exp_out.append(line)
+            continue
+        r = rs[len(exp_calls)]
+        if preserve and line.endswith('\n') and not c.get('oracle_bug'):
+            exp_calls.append((e, line[:len(line) - 1]))
+            exp_out.append(r + '\n')
+        else:
+            exp_calls.append((e, line))
+            exp_out.append(r)
+    whole = ''.join(exp_out)
+    return ob.post(calls == exp_calls and real_lines == L.ref_lines(whole))
+
+
+# --------------------------------------------------------------------------- obligations
+
+_ALL_RX = ['a', 'dot', '^a', 'a|b', '[ab]+', '.*', 'a.', '\\.', 'ab']
+
+
+def _name(tree, is_m) -> str:
+    r = L.render_matcher(tree) if is_m else L.render_transformer(tree)
+    return r.replace(' ', '_').replace('\n', '\\n').replace('\t', '\\t')
+
+
+def _alpha_descr(a: str) -> str:
+    names = {' ': 'space', '\t': 'tab', '\n': 'new-line'}
+    return '{' + ', '.join(names.get(ch, ch) for ch in a) + '}'
+
+
 def obligations(tier: str) -> List[Ob]:
-    n = 4 if tier == 'quick' else 5
-    obs = []
+    quick = tier == 'quick'
+    n_cheap = 4 if quick else 5  # single-string obligations that cost seconds
+    n_std = 3 if quick else 4
+    obs: List[Ob] = []
 
-    def m(name, tree, **kw):
-        case = dict(tree=tree, maxlen=kw.pop('maxlen', n))
-        case.update(kw.pop('case', {}))
-        obs.append(Ob(name=name, fn='km_matcher', case=case, kernel=name.split(':')[0],
-                      bound='|s| <= %d' % case['maxlen'], timeout=kw.pop('timeout', 300), **kw))
+    def add(kernel, fn, tree, maxlen, timeout, name=None, expect=ob.CONFIRM, ref_tree=None, maxlen_e=None,
+            alphabet=None, alphabet_e=None):
+        alphabet = alphabet or L.ALPHABET
+        case = dict(tree=tree, maxlen=maxlen, alphabet=alphabet,
+                    maxlen_e=maxlen_e if maxlen_e is not None else 2,
+                    alphabet_e=alphabet_e or 'a \n')
+        if ref_tree is not None:
+            case['ref_tree'] = ref_tree
+        is_m = fn == 'km_matcher'
+        syntax = L.render_matcher(tree) if is_m else L.render_transformer(tree)
+        bound = '`%s`: every text s, |s| <= %d over %s' % (
+            syntax.replace('\n', '\\n'), maxlen, _alpha_descr(alphabet))
+        if L.uses(tree, 'E'):
+            bound += '; every string E, |E| <= %d over %s' % (case['maxlen_e'], _alpha_descr(case['alphabet_e']))
+        if L.uses(tree, 'numlines'):
+            bound += '; every K0 in Z'
+        if L.uses(tree, 'linenum'):
+            bound += '; every K1 in Z'
+        if L.uses(tree, 'U'):
+            bound += '; every verdict of U on each of the <= %d lines' % maxlen
+        if ref_tree is not None:
+            bound = 'seeded oracle error (reference evaluates `%s`); ' % (
+                L.render_matcher(ref_tree) if is_m else L.render_transformer(ref_tree)) + bound
+        stubs = [STUB_TMP]
+        if L.uses(tree, 'numlines') or L.uses(tree, 'linenum'):
+            stubs.append(STUB_INT)
+        if L.uses(tree, 'U'):
+            stubs.append(STUB_U)
+        outside = [OUT_SRC, OUT_UNI]
+        if L.uses(tree, 'matches') or L.uses(tree, 'grep') or L.uses(tree, 'replace'):
+            outside.append(OUT_RE)
+        obs.append(Ob(
+            name='%s:%s' % (kernel, name or _name(tree, is_m)), fn=fn, case=case, kernel=kernel, bound=bound,
+            timeout=timeout, expect=expect,
+            real=tuple((REAL_PARSE_M if is_m else REAL_PARSE_T)) + tuple(_reals(tree)),
+            stubs=tuple(stubs), outside=tuple(outside),
+            entry=('parse_string_matcher.parsers().full -> matches_w_trace(text)' if is_m else
+                   'parse_string_transformer.parsers().full -> transform(text).contents()')))
 
-    def t(name, tree, **kw):
-        case = dict(tree=tree, maxlen=kw.pop('maxlen', n))
-        case.update(kw.pop('case', {}))
-        obs.append(Ob(name=name, fn='kt_transformer', case=case, kernel=name.split(':')[0],
-                      bound='|s| <= %d' % case['maxlen'], timeout=kw.pop('timeout', 300), **kw))
+    def m(kernel, tree, maxlen=None, timeout=300, **kw):
+        add(kernel, 'km_matcher', tree, maxlen or n_std, timeout, **kw)
 
-    A = ''.join(chr(i) for i in range(32, 127)) + '\t\n'
-    m('K1:is-empty', ('empty',))
-    m('K1:is-empty-ascii', ('empty',), case=dict(alphabet=A))
-    m('K1:num-lines==', ('numlines', '=='))
-    m('K1:num-lines==ascii', ('numlines', '=='), case=dict(alphabet=A))
-    t('K5:strip', ('strip',))
-    t('K5:strip-ascii', ('strip',), case=dict(alphabet=A))
-    t('K5:grep-a', ('grep', 'a'))
-    t('K5:grep-a-ascii', ('grep', 'a'), case=dict(alphabet=A))
-    t('K5:replace-[ab]+-X-3', ('replace', False, None, '[ab]+', 'X'), maxlen=3)
-    t('K5:replace-[ab]+-X-3-ascii', ('replace', False, None, '[ab]+', 'X'), maxlen=3, case=dict(alphabet=A))
-    m('K1:equals-3x3', ('equals',), maxlen=3)
-    m('K1:equals-3x3-ascii', ('equals',), maxlen=3, case=dict(alphabet=A))
+    def t(kernel, tree, maxlen=None, timeout=300, **kw):
+        add(kernel, 'kt_transformer', tree, maxlen or n_std, timeout, **kw)
+
+    # ---- K1
+    m('K1', ('empty',), n_cheap)
+    m('K1', ('equals',), n_std, maxlen_e=n_std, alphabet_e=L.ALPHABET)
+    m('K1', ('equals-lit', ''), n_cheap)
+    for op in L.OPS:
+        m('K1', ('numlines', op), n_cheap if op == '==' else n_std)
+    for rx in _ALL_RX:
+        for full in (False, True):
+            m('K1', ('matches', full, rx), n_cheap)
+    m('K1', ('not', ('empty',)))
+    m('K1', ('not', ('matches', False, 'a')))
+    m('K1', ('and', ('not', ('empty',)), ('numlines', '<=')))
+    m('K1', ('or', ('matches', True, 'a'), ('equals-lit', 'a\n')))
+    m('K1', ('and', ('matches', False, 'a'), ('or', ('matches', False, '\\.'), ('numlines', '>'))))
+    m('K1', ('not', ('or', ('empty',), ('equals',))))
+    m('K1', ('numlines', '=='), name='seeded-oracle-error', expect=ob.REFUTE, ref_tree=('numlines', '>='))
+
+    # ---- K2
+    for q in ('every', 'any'):
+        m('K2', (q, ('U',)), n_cheap if q == 'every' else n_std)
+        m('K2', (q, ('not', ('U',))))
+        for op in (('==', '<=', '>') if quick else L.OPS):
+            m('K2', (q, ('linenum', op)))
+        m('K2', (q, ('contents', ('empty',))))
+        m('K2', (q, ('contents', ('matches', False, '^a'))))
+        m('K2', (q, ('contents', ('matches', True, 'dot'))))
+        m('K2', (q, ('contents', ('equals-lit', 'a'))))
+    m('K2', ('every', ('contents', ('equals',))))
+    m('K2', ('any', ('contents', ('numlines', '=='))))
+    m('K2', ('any', ('and', ('U',), ('linenum', '>='))))
+    m('K2', ('every', ('or', ('contents', ('matches', False, 'a')), ('linenum', '<'))))
+    m('K2', ('and', ('any', ('U',)), ('not', ('every', ('U',)))))
+    m('K2', ('every', ('U',)), name='seeded-oracle-error', expect=ob.REFUTE, ref_tree=('any', ('U',)))
+
+    # ---- K5
+    t('K5', ('identity',), n_cheap)
+    t('K5', ('strip',), n_cheap)
+    t('K5', ('strip-ts',), n_cheap)
+    t('K5', ('strip-tnl',), n_cheap)
+    t('K5', ('upper',), 2 if quick else 3, alphabet='aA.\n', timeout=900)
+    t('K5', ('lower',), 2 if quick else 3, alphabet='aA.\n', timeout=900)
+    for preserve in (False, True):
+        t('K5', ('replace', preserve, None, 'a', 'b'))
+        t('K5', ('replace', preserve, None, 'a', '\\n'))
+        t('K5', ('replace', preserve, None, '[ab]+', ''))
+        t('K5', ('replace', preserve, ('U',), 'a', 'b'))
+    t('K5', ('replace', False, ('linenum', '=='), 'a|b', 'X'))
+    t('K5', ('replace', True, ('contents', ('matches', False, '\\.')), 'a', 'bb'))
+    t('K5', ('replace', False, None, '\\.', 'a\\nb'))
+    t('K5', ('filter', ('U',)))
+    t('K5', ('filter', ('not', ('U',))))
+    for op in (('==', '>=') if quick else L.OPS):
+        t('K5', ('filter', ('linenum', op)))
+    t('K5', ('filter', ('contents', ('matches', False, 'a'))))
+    t('K5', ('filter', ('contents', ('empty',))))
+    t('K5', ('filter', ('and', ('U',), ('not', ('linenum', '<=')))))
+    for rx in ('a', '^a', 'dot'):
+        t('K5', ('grep', rx))
+    t('K5', ('strip',), name='seeded-oracle-error', expect=ob.REFUTE, ref_tree=('strip-ts',))
+
+    # ---- K6
+    t('K6', ('seq', ('strip',), ('upper',)), 2 if quick else 3, alphabet='aA \n', timeout=900)
+    t('K6', ('seq', ('identity',), ('strip-tnl',)))
+    t('K6', ('seq', ('strip-tnl',), ('identity',), ('strip-ts',)))
+    t('K6', ('seq', ('replace', False, None, 'a', '\\n'), ('filter', ('linenum', '=='))))
+    t('K6', ('seq', ('filter', ('U',)), ('replace', True, None, 'a', 'b')))
+    t('K6', ('seq', ('replace', False, None, 'a', 'b'), ('replace', False, None, 'b', 'a')))
+    t('K6', ('seq', ('grep', 'a'), ('strip',)))
+    t('K6', ('seq', ('strip-ts',), ('seq', ('grep', 'dot'), ('strip-tnl',))))
+    m('K6', ('on', ('strip',), ('equals',)))
+    m('K6', ('on', ('identity',), ('empty',)))
+    m('K6', ('on', ('filter', ('U',)), ('numlines', '==')))
+    m('K6', ('on', ('grep', 'a'), ('and', ('equals-lit', 'a\n'), ('not', ('empty',)))))
+    m('K6', ('on', ('replace', True, None, 'a', 'b'), ('every', ('contents', ('matches', True, 'b')))))
+    m('K6', ('on', ('seq', ('strip-tnl',), ('replace', False, None, 'a', '\\n')), ('numlines', '>=')))
+    m('K6', ('on', ('strip-ts',), ('on', ('filter', ('linenum', '==')), ('equals',))))
+    m('K6', ('not', ('on', ('strip',), ('empty',))))
+    t('K6', ('seq', ('replace', False, None, 'a', '\\n'), ('filter', ('linenum', '=='))),
+      name='seeded-oracle-error', expect=ob.REFUTE,
+      ref_tree=('seq', ('filter', ('linenum', '==')), ('replace', False, None, 'a', '\\n')))
+
+    # ---- K3
+    real_k3 = (_P + 'string_matcher.impl.equality._EqualityStringMatcher',
+               _P + 'string_matcher.impl.equality._ApplierWExtDepsCases',
+               _P + 'string_matcher.impl.equality._min_num_chars_to_read',
+               'exactly_lib.type_val_prims.string_source.string_source.read_lines_as_str__w_minimum_num_chars',
+               'exactly_lib.util.str_.read_lines.read_lines_as_str__w_minimum_num_chars')
+    n3 = 3 if quick else 4
+    k3_out = ('both texts depending on external resources (filecmp of two real files): C14-K3', OUT_UNI)
+    obs.append(Ob(name='K3:strategies', fn='k3_equality', kernel='K3',
+                  case=dict(maxlen=n3, maxlen_e=n3, alphabet='a \n'),
+                  bound='every expected text and every actual text of <= %d characters over {a, space, new-line}; '
+                        'every combination of the may_depend_on_external_resources flags except both' % n3,
+                  timeout=600, real=real_k3, stubs=(STUB_SRC,), outside=k3_out,
+                  entry='_EqualityStringMatcher(expected, validator).matches_w_trace(actual)'))
+    obs.append(Ob(name='K3:early-stop', fn='k3_equality', kernel='K3',
+                  case=dict(maxlen=2, maxlen_e=2, alphabet='a\n', pad='x' * 119 + '\n' + 'y' * 30),
+                  bound='actual text = c + 150 concrete characters + d for all texts cd of <= 2 characters over '
+                        '{a, new-line}: the read-ahead stops before the end of the actual text; every expected text of <= 2 characters',
+                  timeout=300, real=real_k3, stubs=(STUB_SRC,), outside=k3_out,
+                  entry='_EqualityStringMatcher(expected, validator).matches_w_trace(actual)'))
+    obs.append(Ob(name='K3:seeded-oracle-error', fn='k3_equality', kernel='K3',
+                  case=dict(maxlen=2, maxlen_e=2, alphabet='a\n', oracle_bug=True),
+                  bound='seeded oracle error: a proper extension of the expected text is accepted',
+                  timeout=300, expect=ob.REFUTE, real=real_k3, stubs=(STUB_SRC,)))
+
+    # ---- K4
+    real_k4a = (_P + 'string_transformer.impl.replace.impl._lines_iterator_from_replacements',)
+    for n, lr in (((1, 3), (2, 2), (3, 2)) if quick else ((1, 4), (2, 3), (3, 2))):
+        obs.append(Ob(name='K4:redivide-%d-lines' % n, fn='k4a_redivide', kernel='K4',
+                      case=dict(n=n, maxlen_r=lr),
+                      bound='%d input lines; every result r_i of the substitution, |r_i| <= %d over {a, new-line}' % (n, lr),
+                      timeout=600, real=real_k4a,
+                      stubs=('the per-line substitution is an uninterpreted function (one symbolic string per line)',),
+                      entry='_lines_iterator_from_replacements'))
+    obs.append(Ob(name='K4:redivide-seeded-oracle-error', fn='k4a_redivide', kernel='K4',
+                  case=dict(n=2, maxlen_r=1, oracle_bug=True), expect=ob.REFUTE,
+                  bound='seeded oracle error: a final line without new-line is dropped', timeout=300, real=real_k4a))
+    real_k4b = tuple(REAL_PARSE_T) + tuple(REAL_OF['replace'])
+    n4 = 3 if quick else 4
+    for preserve in (False, True):
+        for at, at_name in ((None, ''), (('U',), '-at-U'), (('not', ('U',)), '-at-!U')):
+            if quick and at_name == '-at-!U':
+                continue
+            obs.append(Ob(
+                name='K4:replace%s%s' % (at_name, '-preserve-new-lines' if preserve else ''),
+                fn='k4b_replace_uninterpreted', kernel='K4',
+                case=dict(preserve=preserve, at=at, maxlen=n4, maxlen_r=1, alphabet='a \n'),
+                bound='`%s`: every text s, |s| <= %d over {a, space, new-line}; every replacement string E, |E| <= 1; '
+                      'every result r_i of the i:th substitution, |r_i| <= 1 over {a, new-line}%s' % (
+                          L.render_transformer(('replace', preserve, at, 'RX', 'E')), n4,
+                          '; every verdict of U per line' if at else ''),
+                timeout=900, real=real_k4b, stubs=(STUB_RE, STUB_TMP) + ((STUB_U,) if at else ()),
+                outside=(OUT_SRC, OUT_UNI),
+                entry='parse_string_transformer.parsers().full -> transform(text).contents().as_lines'))
+    obs.append(Ob(name='K4:replace-seeded-oracle-error', fn='k4b_replace_uninterpreted', kernel='K4',
+                  case=dict(preserve=True, at=None, maxlen=2, maxlen_r=1, alphabet='a\n', oracle_bug=True),
+                  expect=ob.REFUTE, bound='seeded oracle error: -preserve-new-lines ignored by the reference',
+                  timeout=300, real=real_k4b, stubs=(STUB_RE, STUB_TMP)))
     return obs
+
+
+# --------------------------------------------------------------------------- self-test
+
+def selftest(tier) -> int:
+    """Concrete comparison of the reference semantics with Python's own str / re / text-file
+    behaviour, and of the stub texts with exactly_lib's in-memory text."""
+    import io
+    import itertools
+    import re
+    n = 0
+    texts = ['']
+    for k in range(1, 5):
+        texts += [''.join(p) for p in itertools.product(L.ALPHABET, repeat=k)]
+    for s in texts:
+        if L.ref_lines(s) != list(io.StringIO(s, newline='\n')):
+            raise AssertionError('ref_lines differs from text-file iteration on %r' % s)
+        if L.ref_rstrip(L.ref_lstrip(s)) != s.strip() or L.ref_rstrip(s) != s.rstrip() \
+                or L.ref_rstrip(s, '\n') != s.rstrip('\n'):
+            raise AssertionError('ref strip differs from str.strip on %r' % s)
+        if L.ref_upper(s) != s.upper() or L.ref_lower(s) != s.lower():
+            raise AssertionError('ref case conversion differs on %r' % s)
+        n += 3
+        for key, (syntax, search, full) in L.REGEXES.items():
+            p = re.compile(L.REGEX_PATTERN[key])
+            if bool(p.search(s)) != bool(search(s)):
+                raise AssertionError('reference meaning of search %r differs from re on %r' % (key, s))
+            if bool(p.fullmatch(s)) != bool(full(s)):
+                raise AssertionError('reference meaning of fullmatch %r differs from re on %r' % (key, s))
+            n += 2
+        for rx in ('a', 'b', 'ab', '\\.', '[ab]+', 'a|b'):
+            for repl in ('', 'b', 'X', '\n', 'a\nb', 'bb'):
+                if L.ref_replace_in(rx, repl, s) != re.sub(L.REGEX_PATTERN[rx], repl.replace('\n', '\\n'), s):
+                    raise AssertionError('reference meaning of replace %r differs from re.sub on %r' % (rx, s))
+                n += 1
+    # the concrete syntax of every regex denotes the intended pattern
+    from exactly_lib.impls.types.regex import parse_regex
+    from exactly_lib.section_document.element_parsers.token_stream_parser import new_token_parser
+    from exactly_lib.util.symbol_table import SymbolTable
+    for key, (syntax, _, _) in L.REGEXES.items():
+        sdv = parse_regex.ParserOfRegex().parse_from_token_parser(new_token_parser(syntax))
+        pattern = sdv.resolve(SymbolTable()).value_of_any_dependency(None)
+        if pattern.pattern != L.REGEX_PATTERN[key] or pattern.flags != re.compile('a').flags:
+            raise AssertionError('regex syntax %r denotes %r' % (syntax, pattern.pattern))
+        n += 1
+    # stub texts deliver what exactly_lib's own in-memory text delivers
+    for s in texts[:400] + ['a\n\nb', ' a \n\n', '\n\n\n\n\n']:
+        st = L.stub_string_source(s, False, []).contents()
+        real = L.text_model(s).contents()
+        with st.as_lines as a, real.as_lines as b:
+            if list(a) != list(b) or st.as_str != real.as_str:
+                raise AssertionError('stub text differs from ContentsOfStr on %r' % s)
+        n += 1
+    return n
+
+
+ASSUMPTIONS = [
+    'integer literals are evaluated by a stub of python_evaluate that maps the placeholder names K0, K1 to symbolic '
+    'integers (contract: an integer literal denotes its integer); eval itself is a C boundary',
+    'the line matcher U of unknown class returns an arbitrary boolean per line; the StringSource stubs of K3 honour the '
+    'documented contract of StringSourceContents (as_lines divides at new-line, as_str is their concatenation)',
+    'K4: re.Pattern.sub returns some str (uninterpreted); K1/K2/K5/K6: CrossHair 0.0.110 models of re.search / '
+    're.fullmatch / re.sub for the stated regex family (no `$`, which the tool mis-models before a final new-line; '
+    'no empty matches in sub, which the tool mis-models)',
+    'replacement strings of the real-`re` replace obligations are literals (CrossHair realises the template of '
+    're.Match.expand); the symbolic replacement string is covered by K4 where the substitution is uninterpreted',
+]
+
+OUTSIDE = [
+    '`equals` when both texts depend on external resources (file-file comparison): C14-K3',
+    'run-program matchers / transformers and replace-test-case-dirs (need processes / a sandbox)',
+    'texts longer than the stated bound (the loops are linear in the number of lines; no induction over it)',
+    '`filter -line-nums` and the interval optimisation of `filter` beyond single comparisons: C13',
+]
